@@ -328,6 +328,20 @@ func c12Operands(seed int64) (*sbom.NodeList, *sbom.NodeList) {
 	// a: a,b,c ; b: b,c,d  -> shared b,c ; unshared a / d
 	a, b := fullNodeList(r, []string{"a", "b", "c"}, fullPop()), fullNodeList(r, []string{"b", "c", "d"}, fullPop())
 	a.RootElements = spare([]string{"a", "b", "c"}) // three roots with room to grow; b adds root d
+	// operand shapes on which an implementation may take a shortcut: an empty receiver or argument (the start of
+	// an accumulating loop), operands over the same identifiers, disjoint operands
+	switch uint64(seed) % 8 {
+	case 1:
+		a = &sbom.NodeList{}
+	case 2:
+		a = sbom.NewNodeList()
+	case 3:
+		b = &sbom.NodeList{}
+	case 4:
+		b = fullNodeList(r, []string{"a", "b", "c"}, fullPop())
+	case 5:
+		b = fullNodeList(r, []string{"x", "y"}, fullPop())
+	}
 	return a, b
 }
 
